@@ -49,6 +49,23 @@ def run(tier, replay=None):
         r.add("vocabulary", evaluations=2 * len(res["json"]), nontrivial=nontriv, traces=len(res["json"]))
         if n == 3:
             r.sample({"labels": res["json"][100]["labels"], "model_code": res["json"][100]["code"]})
+    # (A') the single-tree API asked for several trees in one process: same label SET and length, different multiplicities of the integers
+    seqs = [["*", "*", "2", "2", "3"], ["*", "*", "2", "3", "3"], ["+", "+", "2", "10", "10"], ["+", "+", "2", "2", "10"], ["*", "*", "2", "2", "3"],
+            ["+", "*", "a0", "2", "2"], ["+", "*", "2", "a0", "a0"], ["pow", "+", "x", "-3", "-3"], ["pow", "+", "-3", "x", "x"]]
+    codes = common.model_codes(r, seqs, "codes_sequence")
+    for order in (seqs, seqs[::-1]):
+        for lab in order:
+            exp = libproj.code_value(codes[seqs.index(lab)])
+            try:
+                with contextlib.redirect_stdout(io.StringIO()):
+                    got2, k2 = fs.tree_to_aifeyn(list(lab), VOCAB, verbose=False)
+                got1 = float(g.aifeyn_complexity(list(lab), ["a0", "a1", "a2"]))
+            except Exception as ex:
+                r.violation("sequence:raises:%s" % type(ex).__name__, "tree code of %s raised %r" % (lab, ex), {"labels": lab})
+                continue
+            if not close(float(got2), exp) or not close(got1, exp):
+                r.violation("sequence:%s" % " ".join(lab), "asked after other trees in the same process: tree_to_aifeyn(%s) = %.12g, aifeyn_complexity = %.12g, model %.12g" % (lab, float(got2), got1, exp), {"labels": lab})
+    r.add("sequence", evaluations=2 * len(seqs), nontrivial=2 * len(seqs))
     # (B) line i of aifeyn_n.txt belongs to line i of trees_n.txt
     libs = [("core_maths", 4), ("core_maths", 5), ("ext_maths", 4)] if tier == "quick" else \
         [(k, n) for k in bases.SHIPPED for n in (2, 3, 4)] + [("core_maths", 5), ("core_maths", 6), ("ext_maths", 5), ("base_e_maths", 5)]
